@@ -37,6 +37,7 @@ def check(repo: Repo, R) -> None:
     R.run(c06.check, repo, shared.Retag(R, lambda r, k: "C09.5-distinct-modules-distinct-names" if r.startswith("C06.2") and k.endswith("export_module_name") else None,
                                  "two different generated modules that share a qualified name are exported as one name defined twice, instead of being refused"))
     R.run(qualified_names, repo, R)
+    R.run(definition_site, repo, R)
     R.run(generators_return_their_own, repo, R)
     from . import c13 as _c13
     R.run(_c13.to_scalar_shape, repo, shared.Retag(R, lambda r: "C09.7-equal-values-one-cache-entry",
@@ -413,3 +414,35 @@ def _collection_elements(fn: ast.AST, coll: ast.AST):
                 elts.append((v, shared.resolved_conditions(fn, c)))
         return (elts, loop.iter, plain)
     return None
+
+
+
+def definition_site(repo: Repo, R):
+    """The qualified path starts at the python module that *defines* the object.  source_info() finds it as the first
+    stack frame outside Hdl21's own files — for the types that are pydantic dataclasses the constructor is called from
+    inside pydantic, so frames of pydantic have to be passed over as well."""
+    rule = "C09.5-distinct-modules-distinct-names"
+    F_SI = "hdl21/source_info.py"
+    fs = repo.func(F_SI, "source_info")
+    # who records its definition site from inside a (pydantic-)dataclass constructor hook?
+    hooked = []
+    for ci in repo.classes_in("hdl21/"):
+        if not any(d.split(".")[-1].split("(")[0] in ("datatype", "dataclass") for d in ci.decorators):
+            continue
+        for mname in ("__post_init__", "__post_init_post_parse__"):
+            m = ci.methods.get(mname)
+            if m is not None and any((dotted(c.func) or "").split(".")[-1] == "source_info" for c in au.calls_in(m.node)):
+                hooked.append(ci.name)
+    rets = [r for r in shared.returns_of(fs.node) if r.value is not None and "SourceInfo(" in ast.unparse(r.value)]
+    if not rets:
+        raise AnalysisError(f"anchor-vanished: no `return SourceInfo(..)` in {fs.site}")
+    skips = True
+    for r in rets:
+        conds = shared.path_conditions(fs.node, r)
+        txt = " ".join(ast.unparse(shared.prov(fs.node, t)) for t, _p in conds)
+        callees = [repo.resolve_call(c, fs) for t, _p in conds for c in ast.walk(t) if isinstance(c, ast.Call)]
+        via = any(cal is not None and hasattr(cal, "node") and "pydantic" in ast.unparse(cal.node) for cal in callees)
+        skips = skips and ("pydantic" in txt or via)
+    R.check(skips or not hooked, rule, key_of(fs), fs.site,
+            f"{sorted(set(hooked))} record their definition site from a dataclass constructor hook (called by pydantic); source_info() passes over pydantic's frames: {skips}",
+            why="every Generator / ExternalModule gets the path `pydantic._internal._dataclasses`: same-named generators of two python modules, as parameter values, name two different generated modules alike")
